@@ -223,7 +223,10 @@ func Exec(s *Spec) *Result {
 				e, errs := ms.GetModule(op.Name)
 				r.Errs = errStrings(errs)
 				if e != nil {
-					r.Dump = "entry " + e.Name
+					r.Dump = "entry " + e.Name + "\n"
+					if len(errs) == 0 {
+						r.Dump += dump.Full(ms, true)
+					}
 				}
 			})
 		case "query":
